@@ -15,32 +15,51 @@ CONSTANTS
   Electors,    \* nodes whose election timer may fire
   SubmitAt,    \* nodes that accept submissions
   Advs0,       \* clock scales explored by Tick
+  SnapSize,    \* byte size of a serialized snapshot
+  Compactors,  \* nodes on which forceLogCompaction() may be called
+  FaultPairs,  \* connections {i,j} that may break / be (re)established
+  MembCids,    \* callback ids available for membership requests (each used once)
+  MembTargets, \* nodes that may be added / removed
+  Spares,      \* nodes that are not running initially and may be started (with the member list of a running voter)
   MaxDepth
 
 VARIABLES unused, faults
 mcvars == <<vars, gvars, unused, faults>>
 
-MCInit == Init /\ GInit /\ unused = Cmds /\ faults = 0
+MCInit == Init /\ GInit /\ unused = Cmds \cup MembCids /\ faults = 0
 
 \* (distinct bound-variable names per disjunct: TLC's JSON counterexamples carry the bindings, from which
 \*  the harness reconstructs the schedule)
-Env ==
-  \/ \E n \in Nodes, adv \in Advs0 :
+TickEnv ==
+     \E n \in Nodes, adv \in Advs0 :
+        /\ node[n].alive
         /\ (adv = "j") => (n \in Electors /\ node[n].term < MaxTerm /\ node[n].role # "L")
         /\ (adv = "m") => node[n].role = "L"
-        /\ Tick(n, adv) /\ UNCHANGED <<unused, faults>>
-  \/ \E di, dj \in Nodes : Deliver(di, dj) /\ UNCHANGED <<unused, faults>>
-  \/ \E sn \in SubmitAt, sc \in unused :
-        SubmitOp(sn, sc, CmdSize, TRUE) /\ unused' = unused \ {sc} /\ UNCHANGED faults
-  \/ \E bi, bj \in Nodes : bi # bj /\ faults < MaxFaults /\ Break(bi, bj) /\ faults' = faults + 1 /\ UNCHANGED unused
-  \/ \E ni, nj \in Nodes : Notice(ni, nj) /\ UNCHANGED <<unused, faults>>
-  \/ \E ci, cj \in Nodes : Connect(ci, cj) /\ UNCHANGED <<unused, faults>>
+        /\ Tick(n, adv, DefaultCut, [sid |-> ToString(<<node[n].applied, node[n].term, Len(node[n].hist)>>), size |-> SnapSize], <<>>)
+        /\ UNCHANGED <<unused, faults>> /\ lastTick' = n
 
+OtherEnv ==
+  \/ \E di, dj \in Nodes : Deliver(di, dj) /\ UNCHANGED <<unused, faults>>
+  \/ \E sn \in SubmitAt, sc \in unused \cap Cmds :
+        SubmitOp(sn, sc, CmdSize, TRUE) /\ unused' = unused \ {sc} /\ UNCHANGED faults
+  \/ \E mn \in SubmitAt, mc \in unused \cap MembCids, mv \in MembTargets, mk \in {"add", "rem"} :
+        /\ Membership
+        /\ SubmitCmd(mn, mc, IF mk = "add" THEN AddCmd(mv) ELSE RemCmd(mv), CmdSize, TRUE)
+        /\ unused' = unused \ {mc} /\ UNCHANGED faults
+  \/ \E st \in Spares, sv \in Nodes :
+        /\ node[sv].alive /\ sv \notin Observers
+        /\ StartFresh(st, node[sv].others \cup {sv, st}) /\ UNCHANGED <<unused, faults>>
+  \/ \E bi, bj \in Nodes : bi # bj /\ {bi, bj} \in FaultPairs /\ faults < MaxFaults /\ Break(bi, bj) /\ faults' = faults + 1 /\ UNCHANGED unused
+  \/ \E ni, nj \in Nodes : Notice(ni, nj) /\ UNCHANGED <<unused, faults>>
+  \/ \E ci, cj \in Nodes : {ci, cj} \in FaultPairs /\ Connect(ci, cj) /\ UNCHANGED <<unused, faults>>
+  \/ \E fn \in Compactors : ~node[fn].force /\ Compact(fn) /\ UNCHANGED <<unused, faults>>
+
+Env == TickEnv \/ (OtherEnv /\ lastTick' = Nil)
 MCNext == Env /\ GNext
 MCSpec == MCInit /\ [][MCNext]_mcvars
 
 Bound ==
-  /\ \A n \in Nodes : node[n].term <= MaxTerm /\ Len(node[n].log) <= MaxLog
+  /\ \A n \in Nodes : node[n].alive => (node[n].term <= MaxTerm /\ Len(node[n].log) <= MaxLog)
   /\ \A i, j \in Nodes : Len(chan[i][j]) <= MaxChan
   /\ TLCGet("level") <= MaxDepth
 
@@ -55,4 +74,5 @@ P_HistAppendOnly == [][HistAppendOnly]_mcvars
 P_CommitIsQuorumBacked == [][CommitIsQuorumBacked]_mcvars
 P_LeaderCompleteness == [][LeaderCompleteness]_mcvars
 P_TermMonotone == [][TermMonotone]_mcvars
+P_ApplyProgress == [][ApplyProgress]_mcvars
 =============================================================================
